@@ -114,6 +114,20 @@ for pn, sn in ((0, 0), (1, 1)):
     _embed(find_windows_path, "windows.path", pn, sn, "path_neutral", "path_neutral", [b"c:\\temp\\", (3, "lower"), b"\\data"],
            "find_windows_path", funcs=["multidecoder.decoders.path.find_windows_path"], name=f"win_path_p{pn}_s{sn}", timeout=600)
 
+# UNC and DOS-device paths: every optional part of the prefix (@SSL, @port, both, administrative share, \\?\ and \\.\UNC forms)
+_FWP = ["multidecoder.decoders.path.find_windows_path"]
+for _nm, _typ, _segs in (
+        ("unc_plain", "windows.unc.path", [b"\\\\ab.cd\\shr\\", (3, "lower"), b".txt"]),
+        ("unc_ssl", "windows.unc.path", [b"\\\\ab.cd@SSL\\shr\\", (3, "lower"), b".txt"]),
+        ("unc_port", "windows.unc.path", [b"\\\\ab.cd@", (3, "digit"), b"\\shr\\", (1, "lower"), b"ile.txt"]),
+        ("unc_ssl_port", "windows.unc.path", [b"\\\\ab.cd@SSL@", (2, "digit"), b"\\shr\\", (1, "lower"), b"ile.txt"]),
+        ("unc_admin_share", "windows.unc.path", [b"\\\\ab.cd\\", (1, "lower"), b"$\\dir\\", (2, "lower"), b"le.txt"]),
+        ("device_drive", "windows.device.path", [b"\\\\?\\", (1, "lower"), b":\\tmp\\", (2, "lower"), b"le.txt"]),
+        ("device_unc", "windows.device.path", [b"\\\\.\\UNC\\ab.cd\\shr\\", (3, "lower"), b".txt"]),
+):
+    _embed(find_windows_path, _typ, 1, 1, "path_neutral", "path_neutral", _segs, "find_windows_path", funcs=_FWP,
+           name=f"win_{_nm}_p1_s1", timeout=600)
+
 # .exe / .dll names
 _embed(find_executable_name, "executable.filename", 1, 1, "nonword", "nonword", [(3, "lower"), b".exe"], "find_executable_name",
        funcs=["multidecoder.decoders.filename.find_executable_name"], name="exe_name_p1_s1")
